@@ -307,18 +307,19 @@ pub fn run_model(cfg: &ScenCfg, out: &mut RunOut) {
         if live.is_empty() {
             break;
         }
-        // decode-level change injected by the plan (C20) or by the workload
+        // decode-level changes: by the workload (tape) and, for paired replays, by the plan
+        if chance(1, 12) {
+            let lvl = decode_level(choose(36) as u8);
+            let mut fut = Box::pin(rig.handle.set_decode_level(lvl));
+            let _ = kernel::block_on(fut.as_mut());
+            out.probe("decode_change_midstream");
+        }
         if let Some((k, lvl)) = cfg.decode.change_at {
             if k == action {
                 let mut fut = Box::pin(rig.handle.set_decode_level(decode_level(lvl)));
                 let _ = kernel::block_on(fut.as_mut());
                 out.probe("decode_change_injected");
             }
-        } else if chance(1, 12) {
-            let lvl = decode_level(choose(36) as u8);
-            let mut fut = Box::pin(rig.handle.set_decode_level(lvl));
-            let _ = kernel::block_on(fut.as_mut());
-            out.probe("decode_change_midstream");
         }
         action += 1;
         let si = live[choose(live.len() as u32) as usize];
